@@ -127,17 +127,22 @@ def body(r):
         scn = base_scenario(seed, 300 + i, sampler)
         scns.append(scn)
         ws = R.derive(seed, "c14-world", i)
+        if i in (0, n_ns):
+            # 0 is a legal seed (and falsy)
+            scn["kwargs"]["seed"] = 0
         jobs.append({"world": mkworld(ws, scn), "label": "reference", "scn": i})
         for label, v, extra in variants(scn, rr, tier, ws):
-            jobs.append({"world": mkworld(ws, v), "label": label, "scn": i, **extra})
+            # every variant starts from different interpreter-start entropy (world seed): the run seed alone
+            # must determine the results
+            jobs.append({"world": mkworld(R.derive(ws, "entropy", label), v), "label": label, "scn": i, **extra})
         # a different seed must give a different digest (guards against a degenerate digest)
         import copy
 
         other = copy.deepcopy(scn)
         other["kwargs"]["seed"] = (scn["kwargs"]["seed"] + 1) % (2 ** 32 - 1)
-        jobs.append({"world": mkworld(ws, other), "label": "other-seed", "scn": i})
+        jobs.append({"world": mkworld(R.derive(ws, "entropy", "other"), other), "label": "other-seed", "scn": i})
         if i < (2 if tier == "quick" else 12):
-            jobs.append({"world": mkworld(ws, scn), "label": "fresh-interpreter-hashseed", "scn": i,
+            jobs.append({"world": mkworld(R.derive(ws, "entropy", "fresh"), scn), "label": "fresh-interpreter-hashseed", "scn": i,
                          "fresh_interpreter": True, "hashseed": 12345 + i})
     results = r.map(variant_job, jobs, "variants")
     by_scn = {}
@@ -185,7 +190,8 @@ def body(r):
                               and g["run_digest"] == [x for x in group if x["label"] == "reference"][0]["run_digest"])
     return r.finish(
         rule=("for each seeded scenario of both samplers (exactly rounded models) a reference run without a pool, "
-              "then variants that must give the byte-identical digest of (nested samples, logZ, logZ error, posterior "
+              "then variants - each started from different interpreter-start entropy, so only the run seed (0 included) "
+              "can make them agree - that must give the byte-identical digest of (nested samples, logZ, logZ error, posterior "
               "weights, insertion indices, evaluation count): same again in another forked process; fresh "
               "interpreter under another PYTHONHASHSEED; SimPool(k), k=1..4, each under seeded task schedules "
               "(shuffled/reversed completion order, random task-to-worker assignment); chunk sizes 1..larger than "
